@@ -16,6 +16,7 @@ The host is reduced to what the coupling sees: the list, the number of accepted 
 (`attachDedup`) can be run through the same machine (witness theorems in Props/C18).
 Core Lean only.
 -/
+import KawinV.Model.GrainGrowth
 namespace KawinV.Coupling
 
 /-- a coupling model object: identity and class -/
@@ -70,5 +71,146 @@ def expectedIdx (m : Mdl) : Nat → Nat → List Op → List Nat
   | k, n, .attach m' :: r => expectedIdx m (if m' = m then k + 1 else k) n r
   | _, n, .clear :: r => expectedIdx m 0 n r
   | k, n, .step :: r => List.replicate k (n + 1) ++ expectedIdx m k (n + 1) r
+
+end KawinV.Coupling
+
+/-
+ADDITIONS (round 4): histories that contain `reset()` calls.
+
+(1) The host side.  `PrecipitateBase.reset` (kawin/precipitation/KWNBase.py 90-105) rewinds the results
+(`_resetArrays` → a fresh `PrecipitationData`, so `pData.n = 0`), clears `_isSetup`, `_currY`, resets the stopping
+conditions — and does NOT touch `self.couplingModels`; `GrainGrowthModel.reset` (GrainGrowth.py 127-138, a host when
+recorders are attached to it) likewise.  Detaching is `clearCouplingModels` only.  `HOp` adds `reset` to the
+operations; the host state additionally carries `g`, the number of accepted host steps EVER (the host index `n`
+restarts at 0 after a reset, `g` does not), so every host step of a history has its own identity and a duration
+`dt g`.  `applyHOp` takes the effect of reset on the list as a parameter: `resetKeep` (kawin's code) and
+`resetDetach` (a variant whose reset also detaches — not kawin's code; witness theorems in Props/C18).
+
+(2) The grain-growth side.  `LoadDistribution` / `LoadDistributionFunction` (GrainGrowth.py 93-125):
+`pbm.reset()` (the initial grid), `PSD := raw` (histogram counts of the data / the function on the class centres),
+`Normalize()`, then the backup `_oldPSD, _oldPSDbounds := PSD, PSDbounds` — AFTER Normalize; `reset()` (127-138):
+clock `[0]`, `pbm.reset()`, `PSD, PSDbounds := _oldPSD, _oldPSDbounds`; a solve call / coupled host step leaves
+ANY state in the population balance (`evolve`) and appends to the clock.  `ggLoad` takes the order of backup and
+Normalize as a parameter (`backupFirst = false`: kawin's code).  Neither loader touches the clock.
+-/
+namespace KawinV.Coupling
+
+/-- what can happen to a host between and during solve calls, `reset()` included -/
+inductive HOp where
+  | attach (m : Mdl)     -- host.addCouplingModel(m)
+  | clear                -- host.clearCouplingModels()
+  | reset                -- host.reset()
+  | step                 -- one accepted host step: postProcess → updateCoupledModels
+deriving DecidableEq, Repr
+
+/-- host state as the coupling sees it, over resets -/
+structure HSt where
+  models : List Mdl                 -- couplingModels, in order
+  n : Nat                           -- host index (pData.n): accepted steps since the last reset
+  g : Nat                           -- accepted host steps ever
+  log : List (Nat × Nat × Mdl)      -- updateCoupledModel calls: (g at the call, host index at the call, model)
+deriving DecidableEq, Repr
+
+/-- reset as it is: the coupling list is not touched -/
+def resetKeep (l : List Mdl) : List Mdl := l
+
+/-- a variant whose reset also detaches every coupling model — not kawin's code -/
+def resetDetach (_l : List Mdl) : List Mdl := []
+
+def applyHOp (rst : List Mdl → List Mdl) (s : HSt) : HOp → HSt
+  | .attach m => { s with models := attach s.models m }
+  | .clear => { s with models := [] }
+  | .reset => { s with models := rst s.models, n := 0 }
+  | .step => { s with n := s.n + 1, g := s.g + 1,
+                      log := s.log ++ s.models.map (fun m => (s.g + 1, s.n + 1, m)) }
+
+def hrun (rst : List Mdl → List Mdl) (s : HSt) (ops : List HOp) : HSt := ops.foldl (applyHOp rst) s
+
+def hinit : HSt := ⟨[], 0, 0, []⟩
+
+/-- the update calls `m` received: (host step ever, host index), in call order -/
+def hupdatesOf (s : HSt) (m : Mdl) : List (Nat × Nat) :=
+  (s.log.filter (fun e => e.2.2 = m)).map (fun e => (e.1, e.2.1))
+
+def countHSteps (ops : List HOp) : Nat := (ops.filter (fun o => o = HOp.step)).length
+
+/-- the specification, independent of the log: multiplicity `k` of `m` in the list, host steps ever `g`, host
+index `n`; reset rewinds the host index and nothing else -/
+def hexpected (m : Mdl) : Nat → Nat → Nat → List HOp → List (Nat × Nat)
+  | _, _, _, [] => []
+  | k, g, n, .attach m' :: r => hexpected m (if m' = m then k + 1 else k) g n r
+  | _, g, n, .clear :: r => hexpected m 0 g n r
+  | k, g, _, .reset :: r => hexpected m k g 0 r
+  | k, g, n, .step :: r => List.replicate k (g + 1, n + 1) ++ hexpected m k (g + 1) (n + 1) r
+
+/-- host index after a history (rewound by every reset) -/
+def hostIdx : Nat → List HOp → Nat
+  | n, [] => n
+  | _, .reset :: r => hostIdx 0 r
+  | n, .step :: r => hostIdx (n + 1) r
+  | n, _ :: r => hostIdx n r
+
+section ggclock
+variable {α : Type} [Add α]
+
+/-- clock of an attached GrainGrowthModel: every update call solves over the duration of that host step
+(`updateCoupledModel`: `solve(time[n] - time[n-1])`; the inner solve ends exactly there, C05) -/
+def ggClock (dt : Nat → α) (c : α) (upd : List (Nat × Nat)) : α := upd.foldl (fun c e => c + dt e.1) c
+
+end ggclock
+
+section grainload
+variable {α : Type} [Add α] [Sub α] [Mul α] [Div α] [Neg α] [Zero α] [One α]
+  [LT α] [DecidableLT α] [LE α] [DecidableLE α]
+open KawinV.Grain
+
+/-- what loading, resetting and solving touch in a GrainGrowthModel -/
+structure GG (α : Type) where
+  cur : GState α          -- the population balance: bins, PSD, PSDbounds, PSDsize
+  bak : GState α          -- `_oldPSD`, `_oldPSDbounds` (on the initial grid)
+  clock : List α          -- `self.time`
+
+inductive GOp (α : Type) where
+  | load (raw : Nat → α)                 -- LoadDistribution(data) / LoadDistributionFunction(f)
+  | reset                                -- reset()
+  | evolve (s : GState α) (t : α)        -- solve call / coupled host step: any new state, clock appended
+
+def GOp.isLoad : GOp α → Bool
+  | .load _ => true
+  | _ => false
+
+/-- the loaders: raw distribution on the initial grid, Normalize, backup (`backupFirst`: the backup is taken
+before Normalize — not kawin's code) -/
+def ggLoad (backupFirst : Bool) (grid : GState α) (raw : Nat → α) (s : GG α) : GG α :=
+  let g : GState α := { grid with psd := raw }
+  let nrm : GState α := { g with psd := normalize g.n g.psd g.size }
+  { cur := nrm, bak := if backupFirst then g else nrm, clock := s.clock }
+
+def ggReset (s : GG α) : GG α := { cur := s.bak, bak := s.bak, clock := [0] }
+
+def ggEvolve (st : GState α) (t : α) (s : GG α) : GG α := { s with cur := st, clock := s.clock ++ [t] }
+
+def applyG (backupFirst : Bool) (grid : GState α) (s : GG α) : GOp α → GG α
+  | .load raw => ggLoad backupFirst grid raw s
+  | .reset => ggReset s
+  | .evolve st t => ggEvolve st t s
+
+def runG (backupFirst : Bool) (grid : GState α) (s : GG α) (ops : List (GOp α)) : GG α :=
+  ops.foldl (applyG backupFirst grid) s
+
+/-- states after every operation -/
+def traceG (backupFirst : Bool) (grid : GState α) (s : GG α) : List (GOp α) → List (GG α)
+  | [] => []
+  | o :: r => let s' := applyG backupFirst grid s o; s' :: traceG backupFirst grid s' r
+
+/-- `__init__`: empty distribution on the initial grid, backup of it, clock `[0]` -/
+def ggInit (grid : GState α) : GG α :=
+  let e : GState α := { grid with psd := fun _ => 0 }
+  { cur := e, bak := e, clock := [0] }
+
+/-- total grain volume of the current state -/
+def ggVolume (s : GG α) : α := moment 3 s.cur.n s.cur.psd s.cur.size
+
+end grainload
 
 end KawinV.Coupling
